@@ -45,6 +45,16 @@ def budget(tier):
 def _cases(draw):
     d = D(draw)
     desc = gen_schema(d, defaults=0.4 if d.bool(0.7) else 0.0, input_heavy=d.bool(0.6))
+    scalar_cfg = None
+    if desc.scalars and d.bool(0.5):
+        # a configured custom scalar with builtin parse / serialize functions (no files needed): annotations become
+        # Annotated[...] wrappers, which the default / requiredness logic has to see through for every schema source
+        scalar_cfg = {desc.scalars[0]: {"type": "str", "serialize": "str", "parse": "str"}}
+        d.tag("cfg.scalar_with_serialize")
+        if desc.inputs:
+            first = sorted(desc.inputs)[0]
+            if not any(f[0] == "plainScalar" for f in desc.inputs[first]):
+                desc.inputs[first].append(("plainScalar", desc.scalars[0], None))  # nullable, no list, no default
     sdl = render_sdl_rich(d, desc, deprecations=d.bool(0.5), schema_block_p=0.7)
     try:
         schema = build_schema(sdl)
@@ -83,6 +93,8 @@ def _cases(draw):
     if any(f[2] is not None for fs in desc.inputs.values() for f in fs):
         d.tag("schema.input_defaults")
     cfg = base_config(d, otel=False)
+    if scalar_cfg:
+        cfg["scalars"] = scalar_cfg
     headers = {}
     if d.bool(0.5):
         headers = {"Authorization": "$VF_TOKEN", "X-Plain": "v"}
@@ -301,9 +313,13 @@ def run_deliveries(case, scratch):
             fail("import", other, f"{other}: {exc!r}")
             continue
         for cname, fields in base_inputs.items():
-            if other == "intro" and skip_defaults:
-                break
             for fname, default in fields.items():
+                if other == "intro" and skip_defaults:
+                    # KF-C19-1 concerns fields that HAVE a schema default; all other fields are still compared
+                    gt = src.type_map.get(cname)
+                    gf = gt.fields.get(fname) if isinstance(gt, GraphQLInputObjectType) else None
+                    if gf is None or gf.default_value is not Undefined:
+                        continue
                 got = facts.get(cname, {}).get(fname, "ABSENT")
                 if got != default:
                     kind = "field_absent" if got == "ABSENT" else ("requiredness" if "REQUIRED" in (got, default) else "default")
